@@ -9,6 +9,9 @@ REQUIRED = ["DaeVerif.C06.Props." + n for n in (
     "http_host_found_partial", "http_host_sound", "sniff_tcp_http_one_read_partial",
     "quic_sni_sound", "reassembly_keeps_slices", "quic_flight_found", "quic_header_walk_roundtrip", "quic_datagram_found_partial",
     "udp_not_withheld_when_complete", "udp_flow_in_order",
+    "udp_family_per_connection_partial", "udp_family_nothing_held_behind_endpoint_partial",
+    "udp_family_release_is_total_partial",
+    "quic_early_answer_is_final", "quic_complete_means_complete", "quic_datagram_packets_loop",
 )]
 
 
@@ -136,7 +139,7 @@ def run(ctx):
     gen_src = open(os.path.join(os.path.dirname(os.path.dirname(os.path.abspath(__file__))), "harness", "overlay", "component", "sniffing", "c06_gen_test.go")).read()
     gen_ctl = os.path.join(ctx.out, "c06_gen_control_test.go")
     open(gen_ctl, "w").write(gen_src.replace("package sniffing", "package control", 1))
-    binc = ctx.go_test_build("control", ["control/c06_test.go", gen_ctl], "c06flow", extra_overlay=poison)
+    binc = ctx.go_test_build("control", ["control/c06_test.go", "control/c06_fam_test.go", gen_ctl], "c06flow", extra_overlay=poison)
     if not binc:
         return 2
     rc, out = ctx.run_harness(binc, "TestVerifC06Flow")
@@ -157,11 +160,31 @@ def run(ctx):
                        "replay": "VERIF_SEED=%d ./check C06 %s" % (ctx.seed, ctx.tier)},
                        key="c06-udp-withheld-stranded-by-other-connection" if l.startswith("two QUIC connections") else None)
     fstats = json.load(open(os.path.join(ctx.out, "c06flow.stats.json")))
+    # ---- control side, part 2: one flow FAMILY (several QUIC connections on one 4-tuple, dial / write faults)
+    rc, out = ctx.run_harness(binc, "TestVerifC06Fam")
+    mops, mimpl, mmodel = (os.path.join(ctx.out, "c06fam." + e) for e in ("ops", "impl", "model"))
+    if rc != 0 or not os.path.exists(mops):
+        ctx.say("HARNESS-FAILED", out[-3000:])
+        return 2
+    if not ctx.driver("c06drv", mops, mmodel):
+        ctx.proof_failures.append("model driver c06drv failed to run on c06fam")
+    for ln, op, im, mo in ctx.diff_streams(mops, mimpl, mmodel, "c06fam", canon=canon)[:10]:
+        ctx.report(f"handlePkt differs from proved flow-family model at line {ln}: impl `{im[:300]}` model `{mo[:300]}`",
+                   {"stream": "c06fam", "line": ln, "op": op, "impl": im, "model": mo,
+                    "replay": "VERIF_SEED=%d ./check C06 %s" % (ctx.seed, ctx.tier)})
+    mviol = os.path.join(ctx.out, "c06fam.viol")
+    if os.path.exists(mviol):
+        for l in read_lines(mviol)[:10]:
+            ctx.report("property violated by the implementation (handlePkt, flow family): " + l[:600], {"finding": l,
+                       "replay": "VERIF_SEED=%d ./check C06 %s" % (ctx.seed, ctx.tier)})
+    mstats = json.load(open(os.path.join(ctx.out, "c06fam.stats.json")))
+    fam_ops = read_lines(mops)
     # directed scenarios of open findings: reported under their key (KNOWN-FINDING while the key is listed
     # as open in known_findings.jsonl; a VIOLATION once it is listed as fixed and still reproduces)
-    kn = os.path.join(ctx.out, "c06.known")
-    if os.path.exists(kn):
-        listed = {k.get("key") for k in ctx.known}
+    listed = {k.get("key") for k in ctx.known}
+    for kn in (os.path.join(ctx.out, "c06.known"), os.path.join(ctx.out, "c06fam.known")):
+        if not os.path.exists(kn):
+            continue
         for l in read_lines(kn)[:10]:
             key, what = l.split(" ", 1)
             if key in listed:
@@ -201,10 +224,22 @@ def run(ctx):
     distinct |= set(flow_ops)
     kinds["ttcp"] = len(timed_ops)
     distinct |= set(timed_ops)
+    kinds["fam"] = len(fam_ops)
+    distinct |= set(fam_ops)
+    ctx.cov["family_distribution"] = {k: v for k, v in mstats["counters"].items() if k.startswith("fam.")}
+    fam_model = read_lines(mmodel)
+    hold = {}
+    for l in fam_model:
+        for f in l.split(" # ", 1)[-1].split():
+            if f.startswith("holding="):
+                hold[f] = hold.get(f, 0) + 1
+    ctx.cov["family_sessions_holding_at_once"] = hold
     ctx.cov["timed_distribution"] = {k: v for k, v in tstats["counters"].items() if k.startswith("timed.")}
     ctx.cov["op_kinds"] = kinds
     # generator floors: an input class that stops being generated must not go unnoticed
-    allc = dict(fstats["counters"]); allc.update(tstats["counters"]); allc.update(stats["counters"])
+    allc = dict(fstats["counters"]); allc.update(tstats["counters"]); allc.update(mstats["counters"]); allc.update(stats["counters"])
+    allc["fam.holding>=2"] = sum(v for k, v in hold.items() if int(k.split("=")[1]) >= 2)
+    allc["fam.connections>=2"] = sum(v for k, v in mstats["counters"].items() if k.startswith("fam.connections.") and k != "fam.connections.1")
     allc["hello.big.*"] = sum(v for k, v in stats["counters"].items() if k.startswith("hello.big."))
     floors = {"hello.big.*": 40, "http.cut_in_two": 150, "quic.compacted_then_reused": 25, "quic.version.v2": 40,
               "quic.version.draft29": 15, "quic.version.grease_version": 15, "quic.corrupt": 30, "quic.coalesced": 30,
@@ -213,7 +248,13 @@ def run(ctx):
               "timed.drain.async": 10, "flow.two_connections": 30, "flow.two_connections_two_or_more_held": 8,
               "flow.dial_failure.undecryptable_retransmitted": 10, "flow.dial_failure.valid_flight": 5,
               "flow.many_datagrams": 10, "flow.non_initial_after_two_or_more": 3, "quic.many_datagrams": 10,
-              "tcp.writeto_real_tcpconn": 100,  # needs a loopback TCP listener (exit 2 without one) "flow.short_header_between": 8, "flow.with_noise_flows": 30,
+              "tcp.writeto_real_tcpconn": 100,  # needs a loopback TCP listener (exit 2 without one)
+              "flow.short_header_between": 8, "flow.with_noise_flows": 30,
+              # flow family (a run slower than 400 ms is discarded, not compared: too many of them => exit 2)
+              "fam.emitted": 120, "fam.connections>=2": 30, "fam.holding>=2": 5, "fam.with_dial_failures": 40,
+              "fam.write_failure_injected": 20, "fam.same_dcid_two_scids": 5, "fam.domainless_endpoint_then_other_connection": 5,
+              "fam.nosni_streak_under_dial_failures": 4, "fam.undecryptable_under_dial_failures": 4,
+              "fam.dial_fails_at_completion_then_retransmit": 4, "fam.directed_uncacheable_dcid": 3,
               "hello.two_sni_exts": 20, "hello.empty_last_ext": 40, "replay.short_sni_ext": 4}
     low = {k: (allc.get(k, 0), f) for k, f in floors.items() if allc.get(k, 0) < f}
     ctx.cov["generator_floors"] = floors
@@ -230,5 +271,7 @@ def run(ctx):
                            "tcp (scripted reads + drain mode -> answer, buffer, relayed bytes, end), http, norm, "
                            "frames/qext/fenc (CRYPTO reassembly, locator, frame encoders), udp (datagram sequence -> per-datagram answer + kept datagrams), "
                            "pkt (datagram sequence through the real handlePkt -> what reaches the outbound after each, what is held, sniffed domain); "
+                           "fam (history of one flow family through the real handlePkt: datagrams of several QUIC connections interleaved, "
+                           "per-step dial fault -> what reaches the outbound after each step, what is held, sniffed domain); "
                            "distinct_nontrivial counts distinct tls/rec/tcp/udp/http/frames/qext op lines",
-                      evaluations=len(opl) + len(flow_ops) + len(timed_ops), distinct=len(distinct))
+                      evaluations=len(opl) + len(flow_ops) + len(timed_ops) + len(fam_ops), distinct=len(distinct))
